@@ -79,6 +79,15 @@ CLAIMED["C07"] = ("static path enumeration over go/cfg of the sampling methods (
   "Trusts sort.Sort's index contract and the reviewed entries. Value-level equality with the fold of the history is out of reach.",
   "DESIGN.md §3 C07")
 
+CLAIMED["C09"] = ("static guard-fact rules on Compile's error reporting and returns, value-flow rule for the lone-word dispatch, constant evaluation of the escape switch, byte-as-rune lint and whitespace-predicate consistency rule on the two scanners",
+  "Decides the error-reporting clause (each malformed construct reported under exactly its defining condition; error set returned iff non-empty), the integer-vs-key dispatch wiring, the escape table, and two consistency conditions of the hand-written scanners (rune indexing, one whitespace predicate). Does not decide the language the scanners accept.",
+  "Literal round trip, splitting, quoting and nesting equivalence are language-equivalence claims out of static reach here.",
+  "DESIGN.md §3 C09")
+CLAIMED["C11"] = ("static must-check rule over go/cfg for every (value, ok|err) parse result in stage closures (flag read before overwritten/abandoned; failure branch returns an error marker), registry vs documentation table agreement",
+  "Decides the error-marker clause (non-numeric input can never flow on as a number without its failure flag having been tested, and failure branches return documented markers) and that every documented helper exists. Does not decide the numeric/string laws of the helpers.",
+  "All value-level laws (bucket, clamp, csv quoting, separators, unit scaling) are not decided.",
+  "DESIGN.md §3 C11")
+
 PENDING_REASON = "static check for this property is designed in DESIGN.md §3 but not yet built in this revision of /verif; not claimed until it runs"
 
 def main():
